@@ -177,6 +177,23 @@ def c05_cli(ctx):
             ctx.violation("after a successful solve in the same directory, solve %s exits 0 although that error cannot be met (%s)" % (
                 " ".join(second), "the equations were not even solved again" if "dump.txt" not in h[1].files else "residual not enforced"),
                 {"cli": {"history": [["solve", "zz_cantilever.inkfem"], ["solve"] + second + ["zz_cantilever.inkfem"]], "Text": canti, "exit": [h[0].status, h[1].status]}})
+    # ... nor may a preprocessed file kept from an earlier run (another -w setting) be what gets solved
+    fn = "zz_cantilever.inkfem"
+    for first, second in ((["-w", "-p"], []), (["-p"], ["-w"]), (["-p"], [])):
+        fresh = run(ctx, ["solve"] + second + [fn], files={fn: canti}, name="c05")
+        h = run_history(ctx, [["solve"] + first + [fn], ["solve"] + second + [fn]], files={fn: canti}, name="c05h")
+        checked += 3
+        if fresh.status == 0 and h[1].status == 0:
+            a, b = ([float(v) for v in sol_numbers(t_ or "") if v not in ("NaN", "Inf", "+Inf", "-Inf")]
+                    for t_ in (h[1].files.get("zz_cantilever.inkfemsol"), fresh.files.get("zz_cantilever.inkfemsol")))
+            if len(a) != len(b) or any(abs(x - y) > 1e-6 * max(1.0, abs(x), abs(y)) for x, y in zip(a, b)):
+                k = next((i for i, (x, y) in enumerate(zip(a, b)) if abs(x - y) > 1e-6 * max(1.0, abs(x), abs(y))), -1)
+                ctx.violation("after solve %s in the same directory, solve %s writes another solution than in a clean directory (%s)" % (
+                    " ".join(first), " ".join(second), "%d vs %d numbers" % (len(a), len(b)) if len(a) != len(b) else "number %d: %r vs %r" % (k, a[k], b[k])),
+                    {"cli": {"history": [["solve"] + first + [fn], ["solve"] + second + [fn]], "Text": canti}})
+        elif (fresh.status == 0) != (h[1].status == 0):
+            ctx.violation("after solve %s in the same directory, solve %s exits %s; in a clean directory %s" % (" ".join(first), " ".join(second), h[1].status, fresh.status),
+                          {"cli": {"history": [["solve"] + first + [fn], ["solve"] + second + [fn]], "Text": canti}})
     ctx.coverage.setdefault("cli_runs", 0)
     ctx.coverage["cli_runs"] += checked
     ctx.log("command-line contract checked on %d runs (shipped examples, a mechanism, an unreachable error)" % checked)
